@@ -98,7 +98,14 @@ def c02(ctx):
                 ctx.violation("C02.nondeterministic-repeat", "same input, different output across runs", {"case": c, "outputs": rs})
     # (b) history + (c) threads: one Linter over many files, different orders, 8 threads
     files = [{"src": s["src"], "media": rng.choice(MEDIA)} for s in sample_corpus(rng, 600 if ctx.tier == "quick" else 4000)]
-    files += [{"src": s["src"], "media": s["media"]} for s in scs[:400]]
+    # scenario files keep their external-linter result (different declared rule sets on one Linter)
+    files += [{"src": s["src"], "media": s["media"], "ext": s["ext"]} for s in scs[:400]]
+    # files made of regular expressions that leave the validator in a "dirty" state (history dependence)
+    RX = ["/(?<a>x)(/", "/\\k/", "/\\k<b>(?<a>x)/", "/abc/", "/(?<n>.)\\k<n>/u", "/[/", "/a{2,1}/", "/(?<a>a)(?<a>b)/", "/\\u{110000}/u",
+          "new RegExp('(?<x>y)(')", "new RegExp('\\\\k<x>')", "/(?<=a)+/", "/\\1(a)/", "/(?:a/", "/a**/", "/\\p{Foo}/u", "/x{1,}?/"]
+    for _ in range(300 if ctx.tier == "quick" else 3000):
+        files.append({"src": ";\n".join(rng.choice(RX) for _ in range(rng.randint(1, 3))) + ";", "media": "js"})
+    rng.shuffle(files)
     groups = [files[i:i + 40] for i in range(0, len(files), 40)]
     multi = []
     for g in groups:
@@ -109,7 +116,29 @@ def c02(ctx):
         for o, th in ((order, 0), (rev, 0), (shuf, 0), (order, 8)):
             multi.append({"linter": {"rules": "all"}, "files": g, "order": o, "threads": th})
     res = lib.run_vh("multi", multi, per_case_timeout=60)
+    # "fresh" = a fresh process per file for a sample (no thread-local or static state can be shared), else a fresh Linter
     fresh = lib.run_vh("lint", [dict(f, rules="all") for f in files])
+    solo_idx = rng.sample(range(len(files)), min(len(files), 250 if ctx.tier == "quick" else 2000))
+    exe = lib.build_harness("release")
+    import subprocess
+    from concurrent.futures import ThreadPoolExecutor
+
+    def solo(i):
+        p = subprocess.run([exe, "lint"], input=json.dumps(dict(files[i], rules="all")) + "\n", stdout=subprocess.PIPE, stderr=subprocess.DEVNULL, text=True, env=lib.ENV, timeout=60)
+        ls = [l for l in p.stdout.split("\n") if l and not l.startswith("#CASE")]
+        return json.loads(ls[0]) if ls else {"crash": "no output"}
+    with ThreadPoolExecutor(max_workers=lib.NCPU) as ex:
+        solos = list(ex.map(solo, solo_idx))
+    nsolo = 0
+    for i, r in zip(solo_idx, solos):
+        if status(r) in ("panic", "crash") or status(fresh[i]) in ("panic", "crash"):
+            continue
+        if json.dumps(r, sort_keys=True) != json.dumps(fresh[i], sort_keys=True):
+            nsolo += 1
+            if nsolo <= 3:
+                ctx.violation("C02.depends-on-earlier-files-of-the-process", "a file linted in a fresh process differs from the same file linted after other files (thread-local/static state?)",
+                              {"file": files[i], "fresh_process": r, "after_other_files": fresh[i]})
+            fresh[i] = r
     nhist, nontriv = 0, set()
     fi = 0
     for gi, g in enumerate(groups):
@@ -125,6 +154,8 @@ def c02(ctx):
                 continue
             items = r.get("seq") or [x for t in r["threads"] if isinstance(t, list) for x in t]
             for it in items:
+                if vi == 3 and g[it["file"]].get("ext"):
+                    continue      # the callback type is not Send: thread runs are made without it
                 if json.dumps(it["res"], sort_keys=True) != base[it["file"]]:
                     if status(it["res"]) in ("panic", "crash"):
                         continue
@@ -465,13 +496,8 @@ def classify_crash(res, case):
 def parser_input_class(case):
     """A syntactic class for hard parser crashes (no panic site available)."""
     import re
-    src = re.sub(r"/\*.*?\*/", " ", case["src"], flags=re.S)
-    m = list(re.finditer(r"\benum\s+[A-Za-z_$][\w$]*\s*\{", src))
-    if m and case["media"] in ("ts", "tsx", "mts", "cts", "dts"):
-        tail = src[m[-1].end():]
-        tail_nocomment = re.sub(r"//[^\n]*", "", tail)
-        if "}" not in tail_nocomment or re.search(r"=\s*['\"][^'\"\n]*\n", tail):
-            return "ts-enum-body-not-terminated"
+    if case["media"] in ("ts", "tsx", "mts", "cts", "dts") and re.search(r"\benum\s+[A-Za-z_$][\w$]*\s*\{", case["src"]):
+        return "ts-enum"
     return "other-input"
 
 
